@@ -534,15 +534,18 @@ fn axioms_layer(ctx: &mut Ctx) {
         }
     }
     // ordering: strict total order compatible with equality — words of length <= 3 over 2 generators, words of
-    // length <= 2 over 3 generators, and single letters and pairs with generator indices up to 12
+    // length <= 2 over 3 generators, and single letters and pairs with generator indices up to 12 and at the
+    // boundaries 2^7, 2^8, 2^15, 2^16, 2^31, 2^32, 2^53, 2^63 - 1
     let mut words = reduced_words(2, 3);
     for w in reduced_words(3, 2) {
         if !words.contains(&w) {
             words.push(w);
         }
     }
-    for g in [4isize, 9, 10, 11, 12] {
-        for w in [vec![g], vec![-g], vec![1, g], vec![-g, 2], vec![g, -g + 1]] {
+    // (generator indices at the power-of-two boundaries of the integer widths as well: an order that packs a
+    // letter into a narrower key must still separate them)
+    for g in [4isize, 9, 10, 11, 12, 127, 128, 255, 256, 32767, 32768, 65535, 65536, (1 << 31) - 1, 1 << 31, (1 << 32) - 1, 1 << 32, (1 << 32) + 5, 1 << 53, isize::MAX - 1, isize::MAX] {
+        for w in [vec![g], vec![-g], vec![1, g], vec![-g, 2], vec![g, -g + 1], vec![5, -g], vec![-5, g]] {
             if is_reduced(&w) && !words.contains(&w) {
                 words.push(w);
             }
@@ -659,6 +662,17 @@ fn run(ctx: &mut Ctx) {
                 ctx.sample(json!({"layer": "step", "start": raw}));
             }
             step_case(ctx, raw, &operands3, &operands2, None);
+        }
+    }
+    // the same step checks over letters at the integer-width boundaries (generator numbers 2^32 and 2^63 - 1)
+    {
+        let big = [1isize, -1, 1 << 32, -(1 << 32), isize::MAX, -isize::MAX];
+        let raws_big = sequences(&big, 3);
+        let ops_big: Vec<Vec<isize>> = sequences(&big, 2).into_iter().filter(|w| is_reduced(w)).collect();
+        for raw in &raws_big {
+            if raw.iter().any(|x| x.unsigned_abs() > 1) && ctx.take() {
+                step_case(ctx, raw, &ops_big, &ops_big, None);
+            }
         }
     }
     axioms_layer(ctx);
